@@ -374,4 +374,26 @@ theorem call_frame (c : TCtx) (n : Net) (m : Mem) :
   · simp [frame, b1, b2, b3]
   · simp [frame, c1, c2, c3]
 
+/-! ### non-vacuity (tests on literals: the hypotheses of the theorems above are met by ordinary states) -/
+
+def exCtx : TCtx :=
+  { hasRef := true, grace := 3, weight := some 20, disableGen := false, stableRev := "v1", canaryRev := "v2",
+    lastUpdate := .elapsed }
+def exRouted : Net :=
+  { stableExists := true, stableSel := some "v1", canarySvc := some "v2", stableIngress := true, canaryIng := some 20 }
+def exFresh : Net :=
+  { stableExists := true, stableSel := none, canarySvc := none, stableIngress := true, canaryIng := none }
+
+/-- a routed step reports done (hypothesis of `doTR_done` / `done_is_fixed_point`) -/
+example : (doTrafficRouting exCtx exRouted Mem.empty).done = true := by decide
+/-- from a fresh network the first call is not done and creates the canary Service before any route -/
+example : (doTrafficRouting exCtx exFresh Mem.empty).done = false ∧
+    (doTrafficRouting exCtx exFresh Mem.empty).net.canaryIng = none := by decide
+/-- finalising a routed network takes several rounds: the first one only un-pins the stable Service -/
+example : (finalisingTrafficRouting exCtx exRouted Mem.empty).done = false ∧
+    (finalisingTrafficRouting exCtx exRouted Mem.empty).writes = ["unpinStable"] := by decide
+/-- with the grace period off everything is restored in one call, in the proved order -/
+example : (finalisingTrafficRouting { exCtx with grace := 0 } exRouted Mem.empty).writes =
+    ["unpinStable", "deleteCanaryIngress", "deleteCanarySvc"] := by decide
+
 end RV.Props.Traffic
